@@ -58,7 +58,15 @@ def f32_exact_double_bits(b32):
 def rand_string(rng):
     pools = ["abc", "é", "ß", "π", "漢", "😀", "\x00", "<", ">", ",", " ", "\n", "ࠀ", "￿", "\U00010000", "\U0010ffff", "߿", "\x7f", "\x80"]
     n = rng.choice([0, 1, 1, 2, 3, 5, 9, 20])
-    return "".join(rng.choice(pools) for _ in range(n))
+    s = "".join(rng.choice(pools) for _ in range(n))
+    r = rng.random()
+    if r < 0.12:
+        # code points that text layers like to treat specially: a leading byte-order mark (utf-8-sig strips it), non-characters,
+        # the last code point before / first after the surrogate gap, line and paragraph separators, NUL at either end
+        s = rng.choice(["\ufeff", "\ufeff\ufeff", "\ufffe", "\uffff", "\ud7ff", "\ue000", "\u2028", "\u2029", "\x00", "\x85", "\xa0"]) + s
+    elif r < 0.18:
+        s = s + rng.choice(["\ufeff", "\x00", "\n", "\r\n", " ", "\u2028"])
+    return s
 
 
 class Env:
